@@ -40,23 +40,29 @@ Rec(EE, SV, H, B, ST) ==
     [ver |-> Ver, n |-> NServers, byz |-> Byz, events |-> [i \in DOMAIN EE |-> EvJson(EE, i)],
      steps |-> H, final |-> [s \in Servers |-> Held(EE, SV[s])], bad |-> B, stale |-> ST]
 
-EmitNow == PrintT(ToJson(Rec(E', srv', hist', bad', stale')))
+EmitNow == PrintT(ToJson(Rec(E', srv', hist', badEv', stale')))
 
 GInit == FInit
 GNext == FNext /\ (Mode = "cover" => EmitNow)
 GSpec == GInit /\ [][GNext]_gvars
 
 \* "paths": one record per complete behaviour
-Emit == (Mode = "paths" /\ Terminal) => PrintT(ToJson(Rec(E, srv, hist, bad, stale)))
+Emit == (Mode = "paths" /\ Terminal) => PrintT(ToJson(Rec(E, srv, hist, badEv, stale)))
 
 \* "cover": everything but the history
-CoverView == <<E, after, srv, bad, stale, nbad>>
+CoverView == <<E, after, srv, badEv, stale, nbad>>
 
 \* values for the cfg files
 NoByz == {}
+NotListed == Absent
 Byz2 == {2}
 Byz3 == {3}
 AllKinds == Kinds
 CoreKinds == {"join", "leave", "ban", "kick", "pl", "jr", "topic"}
 PowerKinds == {"ban", "kick", "pl", "jr", "leave", "join"}
+ByzKinds == {"ban", "kick", "pl", "topic", "leave"}
+ResKinds == {"ban", "kick", "pl", "jr", "leave"}
+FaultKinds == {"ban", "kick", "leave", "invite"}
+TS1 == {1}
+TS12 == {1, 2}
 =============================================================================
